@@ -121,6 +121,8 @@ pub struct ReadStats {
     /// return ErrorKind::Interrupted once at this 1-based call number
     pub interrupt_at: Option<u64>,
     pub faults_fired: u64,
+    /// error kind of the injected failure (None = ErrorKind::Other)
+    pub fail_kind: Option<io::ErrorKind>,
 }
 
 impl<R> Probe<R> {
@@ -132,7 +134,7 @@ impl<R> Probe<R> {
         s.calls += 1;
         if s.fail_at == Some(s.calls) {
             s.faults_fired += 1;
-            return Err(io::Error::new(io::ErrorKind::Other, "injected read fault"));
+            return Err(io::Error::new(s.fail_kind.unwrap_or(io::ErrorKind::Other), "injected read fault"));
         }
         if s.interrupt_at == Some(s.calls) {
             s.faults_fired += 1;
@@ -237,6 +239,8 @@ pub struct SinkState {
     /// refuse (error) once more than this many bytes were accepted
     pub cap: Option<u64>,
     pub faults_fired: u64,
+    /// error kind of the injected write failure (None = ErrorKind::Other)
+    pub fail_kind: Option<io::ErrorKind>,
     /// calls made after an error was returned by this sink
     pub calls_after_error: u64,
     pub errored: bool,
@@ -292,7 +296,7 @@ impl Write for SharedSink {
         if s.fail_write_at == Some(s.write_calls) {
             s.faults_fired += 1;
             s.errored = true;
-            return Err(io::Error::new(io::ErrorKind::Other, "injected write fault"));
+            return Err(io::Error::new(s.fail_kind.unwrap_or(io::ErrorKind::Other), "injected write fault"));
         }
         let mut n = buf.len();
         if s.short > 0 {
